@@ -1,5 +1,5 @@
 """C08 (MAC family: MacTrace.tla)."""
-from . import macfam, core
+from . import macfam, core, mcreplay
 PID = "C08"
 
 
@@ -10,7 +10,10 @@ def run():
         'seeded random histories where nearly every uplink is answered by an authentic Class A downlink carrying a MAC-command stream (LinkADRReq blocks of 1..n with DR/TXPower/ChMaskCntl/mask drawn from boundary+random values, RXParamSetupReq, RXTimingSetupReq, NewChannelReq, DlChannelReq, DevStatusReq, ignored and malformed commands) in FOpts or port 0; answers in the next uplinks and the snapshot after every downlink are compared',
         macfam.COMMON_ASSUMPTIONS,
         mc=([("MCMacCmd.tla", "MCMacCmd.cfg", {"workers": 12, "timeout": 3000}), ("MCMacCmd.tla", "MCMacCmdUS.cfg", {"workers": 12, "timeout": 3000})] if t
-            else [("MCMacCmd.tla", "MCMacCmd1.cfg", {"workers": 8})]))
+            else [("MCMacCmd.tla", "MCMacCmd1.cfg", {"workers": 8})]),
+        # specification -> implementation: one behaviour per reachable design state, executed on the real devices
+        extra=[mcreplay.extra(PID, [("MCMacCmdGen2.cfg", "EU868"), ("MCMacCmdGenUS2.cfg", "US915")] if t
+                              else [("MCMacCmdGen1.cfg", "EU868"), ("MCMacCmdGenUS1.cfg", "US915")])])
 
 
 def replay(path):
